@@ -9,7 +9,8 @@ claim("C01", "other",
       "fft_settings shapes (n >= every record length: zero padding, never truncation), the three registries incl. every alias and the dispatch "
       "functions (structural, from the AST), and the homogeneity / common-factor / closed-form lemmas over the spec functions. Bounded "
       "(labelled, not counted as proved): the numeric pipeline taper -> |rfft| -> combine -> smooth -> divide of process() for all methods is "
-      "compared with an independent numpy evaluation on generated windows, because rfft / tukey / percentile are external.",
+      "compared with an independent numpy evaluation on generated windows, because rfft / tukey / percentile are external."
+      "The pipeline clauses place Savitzky-Golay centre frequencies off the FFT grid as well as on it.",
       TB + "Bounded clause: 1-3 windows of 40-300 samples, 4 time steps, all methods and aliases, 7 operators, 4 taper widths, 4 fft_settings shapes.",
       "contract-based deductive verification (AST->SMT VCs, z3+cvc5) + bounded native contract evaluation", "DESIGN.md 5/C01")
 
@@ -24,7 +25,8 @@ claim("C02", "other",
       "Lemmas (base/step pairs over the ghost sums, per kernel): non-negative weights on the support, a constant spectrum is reproduced, the "
       "output lies between the smallest and largest contributing sample, linearity, row independence; Savitzky-Golay: closed forms of sum i^2 "
       "and sum i^4, coefficients sum to the normaliser, second moment vanishes (cubic reproduction). Bounded (labelled): compiled (numba) == "
-      "interpreted source by differential runs - numba's translation is outside any contract on Python source.",
+      "interpreted source by differential runs - numba's translation is outside any contract on Python source."
+      "Integer-valued and single-precision spectra must be smoothed to the weighted average of their values (dtype independence, all six kernels).",
       TB + "sin/log10/10**x uninterpreted (log10(y)=0 <=> y=1, log10(10^x)=x, monotone log10 as named instances); A-ROUND (|round(x)-x| <= 1/2); "
       "the induction schema itself is applied by hand to the proved base/step lemmas (A-INDUCTION).",
       "contract-based deductive verification with loop invariants over ghost sums (z3+cvc5) + bounded differential check of compiled kernels", "DESIGN.md 5/C02")
@@ -67,7 +69,8 @@ claim("C08", "other",
       "returns the highest local maximum of the mean curve in the stored range, ValueError only when there is none. With scipy filters present "
       "only 'frequency and amplitude of one sample strictly inside the range' is claimed. Cross-check/bounded (labelled): every azimuth of "
       "HvsrAzimuthal, HvsrDiffuseField.mean_curve_peak and the objects above over histories of 1-4 range updates, against an independent "
-      "local-maximum oracle.",
+      "local-maximum oracle."
+      "Ranges are also handed over as lists that the caller overwrites afterwards.",
       TB + "A-ARGMIN/A-ARGMAX (first index of the extremum), A-FIND-PEAKS (scipy.signal.find_peaks: increasing interior indices, not lower than "
       "their neighbours, every strict local maximum present); A-NAN (NaN is a distinguished constant that is only stored and tested).",
       "contract-based deductive verification (z3+cvc5) of the peak-search call chain from the index range up to the per-window update, callees by contract + native contract evaluation over update histories", "DESIGN.md 5/C08")
@@ -99,7 +102,8 @@ claim("C04", "other",
       "Bounded (labelled): the processing-level consequences (azimuthal = stack of single-azimuth results, RotDpp "
       "within [min,max] over azimuths and non-decreasing in the percentile, rotation-invariant methods and diffuse field independent of "
       "orientation, preprocessing orients every record incl. target 0) evaluated natively."
-      "Added after the second round of seeded changes: the SeismicRecording3C.split contract (orientation carried over) is discharged here too, and a bounded clause checks that windows, copies and reloaded recordings keep the orientation of their source (re-orienting them recovers polarised motion).",
+      "Added after the second round of seeded changes: the SeismicRecording3C.split contract (orientation carried over) is discharged here too, and a bounded clause checks that windows, copies and reloaded recordings keep the orientation of their source (re-orienting them recovers polarised motion)."
+      "The stack / RotDpp clause runs with four tapers; the azimuthal_hvsr_processing contract (one single-azimuth run per azimuth with the caller's settings, proved with C03) is discharged here too.",
       TB + "cos/sin uninterpreted; only the named identities (Pythagoras, angle addition, parity, periodicity) are assumed, each lemma lists the instances it uses.",
       "contract-based deductive verification (z3+cvc5, nonlinear real lemmas over trig axioms) + bounded native evaluation of processing-level consequences", "DESIGN.md 5/C04")
 
@@ -117,7 +121,8 @@ claim("C05", "other",
       "statistic of an object built from the accepted windows alone, accessors are read-only, lognormal frequency/period consistency. The "
       "mask selections of the accessors, the curve statistics (axis=0), np.cov and the explicitly weighted (azimuthal) uses are bounded only. "
       "Known finding F-9 is reported by its own clause."
-      "A further bounded clause: the fn statistics ignore accepted windows that have no peak in the range (mean / std / n-th std over the accepted windows that have one).",
+      "A further bounded clause: the fn statistics ignore accepted windows that have no peak in the range (mean / std / n-th std over the accepted windows that have one)."
+      "After a peak-range update the accepted windows, the accepted peaks and the windows that have a peak are the same set (checked natively; the update_peaks_bounded contract of C08 is discharged here too).",
       TB + "numpy nansum / cov external; the cross-check bound: 4-11 windows x 20-50 samples, up to 6 history steps per object.",
       "contract-based deductive verification of the distribution-dependent formulas + native evaluation of the estimator contracts over mask histories", "DESIGN.md 5/C05")
 
@@ -149,7 +154,8 @@ claim("C06", "other",
       "Structural obligations on the driver are kept. Bounded / cross-check (labelled): the whole entry point including peak "
       "search set-up equals an independent re-implementation of Cox et al. (2020) for all four distribution pairs, n in {0.5..2.5}, "
       "max_iterations in {1,2,3,50}, two kinds of search range, crafted exact-zero cases; window-order and amplitude-scale invariance; the "
-      "azimuthal maximum. That the accessors return the textbook statistics is C05's obligation, not repeated here.",
+      "azimuthal maximum. That the accessors return the textbook statistics is C05's obligation, not repeated here."
+      "A further cross-check clause runs the library on curve sets that separate the published iteration from plausible slips (re-accepting, a stale mean curve, bounds moving within an iteration); the sets are found with the reference alone, with a quota per slip.",
       TB + "Cases whose decision sits on a bound within rounding (or whose convergence quantities are zero only up to rounding) are set aside by the oracle.",
       "contract on the real driver discharged by z3/cvc5 (accessors abstracted by their contracts) + structural obligations + bounded native comparison with an independent re-implementation", "DESIGN.md 5/C06")
 
@@ -196,7 +202,8 @@ claim("C17", "other",
       "and Nyquist (tapered mean square minus the share of those two bins, normalised by the taper's mean square), leaves its inputs "
       "unmodified; rpsd per component with smoothing on and off; diffuse-field HVSR = sqrt(S(Pns+Pew)/S(Pvt)) of exactly the retained windows "
       "(minority time step first / last / absent); psd_preprocess = filter -> (constant detrend, taper) -> division by a flat response with "
-      "the mean removed -> filter -> spectral derivative -> split -> detrend.",
+      "the mean removed -> filter -> spectral derivative -> split -> detrend."
+      "Amplitudes down to 1e-10 (the diffuse-field ratio does not depend on the unit) and requested FFT lengths below the window length (raised, never used to truncate) are part of the rpsd / diffuse-field clause.",
       "Trusted: numpy/scipy FFT, taper, filters, freqs; floats as reals for the lemmas. Bounds: 1-4 windows of 64-300 samples, 4 steps, 4 tapers, 3 FFT lengths, scales 1e-4..1e3.",
       "contract-based deductive verification of the PSD accumulation / scaling function (z3+cvc5) + lemmas + bounded native evaluation of the PSD / preprocessing contracts", "DESIGN.md 5/C17")
 
@@ -233,7 +240,8 @@ claim("C15", "other",
       "(labelled; json is external): real save/load and reader round trips of random legal attribute values (arrays, lists, tuples, None, "
       "dicts; set by constructor and by assignment) for the 8 classes compared by content, processing / preprocessing with the reloaded "
       "settings identical, and cross-object / caller-argument / later-default independence by mutating every attribute in place or by assignment."
-      "Fractional azimuth sets are among the legal values.",
+      "Fractional azimuth sets are among the legal values."
+      "Legal in-place edits made after attr_dict / == / repr were evaluated must be saved; numpy double / int64 / bool_ scalars are legal attribute values.",
       "Trusted: deepcopy / np.array allocate at every level; json; the table of immutable (number/string/boolean/None) parameters; the AST matcher.",
       "structural contract obligations on constructor/serialisation ASTs + bounded native round-trip and aliasing checks", "DESIGN.md 5/C15")
 
@@ -245,7 +253,8 @@ claim("C12", "other",
       "histories (range updates, FDWRA, manual, mask replacement, accepted windows without a peak), azimuthal (1-4 azimuths incl. non-integer, "
       "unequal counts, ranges, masks), diffuse field - comparing frequencies, curves bit for bit, masks, search range, peaks and every statistic, "
       "plus the file's columns against the written object."
-      "The azimuthal histories include the library's own frequency-domain rejection with a search range (defect F-17, repaired).",
+      "The azimuthal histories include the library's own frequency-domain rejection with a search range (defect F-17, repaired)."
+      "Histories also include statistics read before windows are rejected, peak-search filters in a dictionary the caller edits afterwards, and azimuths in non-ascending order.",
       "Trusted: numpy text I/O at '%.18e', json, the header regex; the AST matcher.",
       "structural contract obligations on writer/reader ASTs + bounded native round trips", "DESIGN.md 5/C12")
 
@@ -262,7 +271,8 @@ claim("C07", "other",
       "channel-naming variants, the GCF example, duplicated component, unrecognised file; read() with scalar / list / tuple / array / numpy "
       "scalar / 0 orientations and per-recording options: components hold exactly the stored samples (single precision for the integer text "
       "formats), the file's time step and the right orientation."
-      "Explicit degrees_from_north=0 / 0.0 is part of every format's clause.",
+      "Explicit degrees_from_north=0 / 0.0 is part of every format's clause."
+      "Count mismatches are written in both directions (missing and surplus samples); SAC triples with mixed byte order are read.",
       "Trusted: re, obspy (also used to write the binary test files), float32 rounding; GCF only from the one example file (obspy cannot write GCF).",
       "contract proofs of the count check and of the trace-to-component assignment (exhaustive case split) + structural obligations + bounded grammar-based native reader checks", "DESIGN.md 5/C07")
 
@@ -277,7 +287,8 @@ claim("C14", "other",
       "scaling by 1e-3..1e3. Bounded also: montecarlo_fn / _statistics equal the weighted mean and reliability-weighted standard deviation of "
       "the realisations in the requested space for all four generator / spatial combinations, are reproducible for a seeded generator, "
       "invariant to weight scale, and reduce to the closed form for zero standard deviations; unknown distribution names raise."
-      "Integer-valued and list inputs must give what the same numbers as floats give.",
+      "Integer-valued and list inputs must give what the same numbers as floats give."
+      "The same HvsrSpatial object is asked about two boundaries that keep different sensors.",
       "Trusted: scipy.spatial.Voronoi, shapely, numpy Generator; the clipping oracle. Bounds: 4-11 sensors inside 4 hull families, 2-7 generators x 1-400 realisations.",
       "contract-based deductive verification of the weighted statistics function + lemmas (z3+cvc5) + bounded native comparison of the geometric half with an independent clipping oracle", "DESIGN.md 5/C14")
 
@@ -289,7 +300,8 @@ claim("C19", "other",
       "chunking, order or worker count (A-POOL). Bounded (labelled, samples schedules): the real entry point on 3 generated miniSEED files "
       "(different sampling rates and lengths) for 4 / 36 order x --nproc x settings-family schedules, every CSV byte-identical to the "
       "single-file pipeline run in a fresh interpreter with freshly loaded settings."
-      "A third settings family carries an fft_settings dictionary with 70 s windows (the long file needs a longer FFT than the others).",
+      "A third settings family carries an fft_settings dictionary with 70 s windows (the long file needs a longer FFT than the others)."
+      "One schedule uses different --distribution_mc and --distribution_fn.",
       "Trusted: A-POOL, deepcopy, numpy/scipy determinism, the AST matcher.",
       "structural contract obligations (history independence by construction) + bounded runs of the real CLI", "DESIGN.md 5/C19")
 
